@@ -6,6 +6,7 @@ from ..ref import bip32ref as rb32, base58 as r58, secp
 from .common import rand_bytes
 
 PROP = "C09"
+REPEAT_SAMPLE = {"quick": 15, "thorough": 60}   # expensive cases: small repeat pass
 LEVEL = "exploration"
 RULE = ("Seeds of 16..64 bytes; paths of depth 0..8 over {0,1,2^31-1,2^31,2^31+1,2^32-1,random}, mixed hardened/normal, "
         "mainnet/testnet: the real derive_from_path/get_xpub/to_master_key outputs are compared (Base58 string equality = "
@@ -53,6 +54,12 @@ def gen_cases(tier, seed):
             path = [p if j < len(path) // 2 else p % HARD for j, p in enumerate(path)]
         yield "path", {"seed": rand_bytes(rng, rng.choice([16, 16, 32, 32, 64, 17, 48])).hex(), "path": path, "testnet": i % 4 == 0,
                        "split": rng.randrange(0, depth + 1)}
+    # siblings: many children of ONE parent derived back to back (a result must not depend on earlier calls);
+    # parents whose private key / child keys have leading zero bytes (ground with the reference: 1 in 256 otherwise)
+    for i in range(10 if q else 150):
+        yield "siblings", {"seed": rand_bytes(rng, 32).hex(), "idx": [rng.choice(IDX) if rng.random() < 0.6 else rng.getrandbits(32) for _ in range(6)], "lz": i % 2 == 0}
+    for i in range(10 if q else 150):
+        yield "both_networks", {"seed": rand_bytes(rng, 32).hex(), "path": [rng.choice(IDX[:5]) for _ in range(rng.randrange(1, 4))], "first_testnet": i % 2 == 0}
     for i in range(40 if q else 800):
         yield "ckd", {"k": hex(rng.randrange(1, secp.N)), "c": rand_bytes(rng, 32).hex(), "i": rng.choice([0, 1, 2, HARD - 1, rng.randrange(HARD)])}
     for i in range(10 if q else 100):
@@ -66,7 +73,7 @@ def gen_cases(tier, seed):
 
 def required(tier):
     return {"path.decided": 100, "path.composition": 60, "path.public_tail": 40, "path.hardened_from_pub_refused": 20,
-            "ckd.commute": 30, "ckd.hardened_refused": 8, "ser.roundtrip": 50, "ser.form.int": 10, "reject.decided": 400,
+            "ckd.commute": 30, "siblings.children": 60, "networks.derivations": 25, "ser.class.zero_fingerprint_at_depth>0": 3, "siblings.class.parent_key_leading_zero": 4, "ckd.hardened_refused": 8, "ser.roundtrip": 50, "ser.form.int": 10, "reject.decided": 400,
             "vectors.invalid": 16}
 
 
@@ -200,6 +207,73 @@ def run_case(kind, params, ctx):
             except Exception:
                 ctx.count("path.hardened_from_pub_refused")
         return
+    if kind == "both_networks":
+        seed = bytes.fromhex(params["seed"])
+        path = params["path"]
+        order = [params["first_testnet"], not params["first_testnet"], params["first_testnet"]]
+        for step, tn in enumerate(order):
+            try:
+                ref = rb32.derive(seed, path, tn)
+            except ValueError:
+                return
+            ctx.count("networks.derivations")
+            ctx.seen("net", (params["seed"], tuple(path), step))
+            try:
+                got = bytes(hd.derive_from_path(rb32.path_str(path), ref[0][0]))
+                if got != ref[-1][0]:
+                    ctx.violation(f"both-networks/private-wrong/{_which_field(got, ref[-1][0])}/step{step}", f"same seed and path derived on {'testnet' if tn else 'mainnet'} after the other network in this process: {got!r} != {ref[-1][0]!r}")
+                t = len(path)
+                while t > 0 and path[t - 1] < HARD:
+                    t -= 1
+                if t < len(path):
+                    gotp = bytes(hd.derive_from_path(rb32.path_str(path[t:], public=True), ref[t][1]))
+                    if gotp != ref[-1][1]:
+                        ctx.violation(f"both-networks/public-wrong/{_which_field(gotp, ref[-1][1])}/step{step}", f"{gotp!r} != {ref[-1][1]!r}")
+            except ContractViolation:
+                raise
+            except Exception as e:
+                ctx.violation("both-networks/raises", f"{type(e).__name__}: {e}")
+        return
+    if kind == "siblings":
+        seed = bytes.fromhex(params["seed"])
+        if params["lz"]:
+            import hashlib
+            for t in range(20000):
+                cand = hashlib.sha256(seed + t.to_bytes(4, "big")).digest()
+                try:
+                    if rb32.master(cand)[0] >> 248 == 0:
+                        seed = cand
+                        ctx.count("siblings.class.parent_key_leading_zero")
+                        break
+                except ValueError:
+                    pass
+        try:
+            k, c = rb32.master(seed)
+        except ValueError:
+            return
+        root = rb32.ser(k, c, 0, b"\x00" * 4, 0)
+        rootpub = rb32.ser(secp.pub(k), c, 0, b"\x00" * 4, 0)
+        order = list(params["idx"]) + list(params["idx"][:2])      # the first two are derived again at the end
+        for i in order:
+            try:
+                ref = rb32.derive(seed, [i])[1]
+            except ValueError:
+                continue
+            ctx.count("siblings.children")
+            ctx.seen("sib", (params["seed"], i, len(order)))
+            try:
+                got = bytes(hd.derive_from_path(rb32.path_str([i]), root))
+                if got != ref[0]:
+                    ctx.violation(f"siblings/private-child-wrong/{'hardened' if i >= HARD else 'normal'}/{_which_field(got, ref[0])}", f"child {i} of the same parent, derived after its siblings: {got!r} != {ref[0]!r}")
+                if i < HARD:
+                    gotp = bytes(hd.derive_from_path(rb32.path_str([i], public=True), rootpub))
+                    if gotp != ref[1]:
+                        ctx.violation(f"siblings/public-child-wrong/{_which_field(gotp, ref[1])}", f"child {i}: {gotp!r} != {ref[1]!r}")
+            except ContractViolation:
+                raise
+            except Exception as e:
+                ctx.violation("siblings/raises", f"child {i}: {type(e).__name__}: {e}")
+        return
     if kind in ("ckd", "ckd_hard"):
         k = int(params["k"], 16)
         c = bytes.fromhex(params["c"])
@@ -240,12 +314,14 @@ def run_case(kind, params, ctx):
     if kind == "serialize":
         rng = rng_for("C09s", params["salt"])
         depth = rng.choice([0, 1, 2, 5, 255])
-        fp = b"\x00" * 4 if depth == 0 else rand_bytes(rng, 4)
+        fp = b"\x00" * 4 if depth == 0 else rng.choice([rand_bytes(rng, 4), rand_bytes(rng, 4), b"\x00" * 4, b"\xff" * 4, b"\x00\x00\x00\x01"])
         child = 0 if depth == 0 else rng.choice(IDX + [rng.getrandbits(32)])
-        c = rand_bytes(rng, 32)
+        c = rng.choice([rand_bytes(rng, 32), rand_bytes(rng, 32), b"\x00" * 32, b"\xff" * 32])
         k = rng.randrange(1, secp.N)
         key = k if params["priv"] else secp.pub(k)
         forms = params["forms"]
+        if depth and fp == b"\x00" * 4:
+            ctx.count("ser.class.zero_fingerprint_at_depth>0")
         d_arg = depth if forms in ("int", "mixed_depth_int") else bytes([depth])
         c_arg = child if forms in ("int", "mixed_child_int") else struct.pack(">I", child)
         exp = rb32.ser(key, c, depth, fp, child, params["testnet"])
